@@ -357,6 +357,8 @@ def d4(ctx):
         def proved(self, rule, *a, **kw):
             return self._c.proved(rule.replace("D3/T5-parameter-slots", "D4/T5-parameter-slots"), *a, **kw)
     C07.d3_param_index_update(Proxy(ctx))
+    # the Jacobian-vector closures used by the warm start take the parameters from their own argument
+    C07.d3_objective_closures(Proxy(ctx), pattern=r"^jac_xp\d*_vec$", min_count=2)
 
 
 def variants(repo):
@@ -382,6 +384,7 @@ def variants(repo):
         Variant("invScaling = scaling", O, sub_in_func("ScaledObjective.__init__", "            invScaling = 1.0/scaling", "            invScaling = 1.0*scaling"), "D3/T6-scaling-transparent"),
         Variant("precond gets scaling", O, sub_in_func("ScaledObjective.__init__", "                                                          invScaling)", "                                                          scaling)"), "D3/T6-scaling-transparent"),
         Variant("one-sided congruence", O, sub_in_func("ScaledPrecondStrategy.precond_at_attempt", "self.invScaling.T * K * self.invScaling", "K * self.invScaling"), "D3/T6-scaling-transparent"),
+        Variant("warm-start jvp captures self.p", O, sub("jvp(lambda q0: self.grad_x(x, param_index_update(p,0,q0)),", "jvp(lambda q0: self.grad_x(x, param_index_update(self.p,0,q0)),"), "D4/T5-parameter-slots"),
         Variant("param_index_update slot", O, sub("return Params(p[0], p[1], p[2], p[3], newParam, p[5])", "return Params(p[0], p[1], p[2], newParam, p[4], p[5])"), "D4/T5-parameter-slots"),
         Variant("reformat WarmStart", W, reformat(), None),
         Variant("reformat Objective", O, reformat(), None),
